@@ -173,7 +173,8 @@ func H_C14_Seq(shape int) {
 		p.Close()
 	}
 	verifrt.WaitAll()
-	verifrt.Assert(s.OpenStmts == 0, "C14.statement-leak")
+	verifrt.Settle(func() bool { return s.OpenStmtsNow() == 0 })
+	verifrt.Assert(s.OpenStmtsNow() == 0, "C14.statement-leak")
 	// after Close every operation fails cleanly
 	err := c14Op(db, "exec-q1")
 	verifrt.Assert(err != nil && c14Clean(err), "C14.use-after-close")
@@ -252,5 +253,6 @@ func H_C14_Threads(shape int) {
 		pdb.Close()
 	}
 	verifrt.WaitAll()
-	verifrt.Assert(s.OpenStmts == 0, "C14.statement-leak")
+	verifrt.Settle(func() bool { return s.OpenStmtsNow() == 0 })
+	verifrt.Assert(s.OpenStmtsNow() == 0, "C14.statement-leak")
 }
